@@ -182,6 +182,19 @@ static void exec_io(const Plan &p, RunResult &r) {
     WireCfg wc = draw_wire(wr), rc = draw_wire(rr), wc2 = draw_wire(w2, 1 - wc.transport);
     bool huge = kc && sp.n > 100;
     if (huge) { wc.wmode = 0; wc.wbuf = 65536; wc2.wbuf = 65536; wc2.wmode = 0; rc.rbuf = 65536; if (rc.rmax && rc.rmax < 4096) rc.rmax = 65536; }
+    // the advisory per-row variances of generated key material are all equal: make them differ (largest value on a late row) so that
+    // "stored once, comes back as the common maximum" is exercised on generated keys of every size; restored at the end of the run
+    struct VarFix { double *p; double old; };
+    std::vector<VarFix> varfix;
+    auto bump = [&](KeyCtx *K) {
+        if (!K) return;
+        LweKeySwitchKey *kk = K->ck->bk->ks; int rows = kk->n * kk->t * kk->base;
+        Rng vr(mix64(p.seed, 0x7a2));
+        for (int q = 0; q < 3; q++) { int i = rows - 1 - (int) vr.below((uint64_t) std::max(1, rows / 3)); double *v = &kk->ks0_raw[i].current_variance; varfix.push_back({v, *v}); *v = *v * (1.5 + q) + 1e-12 * (q + 1); }
+        LweBootstrappingKey *bk = (LweBootstrappingKey *) K->ck->bk; int brows = bk->in_out_params->n * bk->bk_params->kpl;
+        for (int q = 0; q < 2; q++) { int i = brows - 1 - (int) vr.below((uint64_t) std::max(1, brows / 3)); double *v = &bk->bk[i / bk->bk_params->kpl].all_sample[i % bk->bk_params->kpl].current_variance; varfix.push_back({v, *v}); *v = *v * (2.0 + q) + 1e-13; }
+    };
+    bump(kc); if (kc2 != kc) bump(kc2);
     std::vector<Obj> objs;
     for (auto &o : p.ops) {
         int kind = kind_by_name(o.gets("kind"));
@@ -239,6 +252,7 @@ static void exec_io(const Plan &p, RunResult &r) {
     for (auto &o : objs) { kinds_mask |= 1ull << o.kind; r.probes.add(std::string("kind_") + kind_name(o.kind)); }
     for (auto &o : back) obj_free(o);
     for (auto &o : objs) obj_free(o);
+    for (auto it = varfix.rbegin(); it != varfix.rend(); ++it) *it->p = it->old;
     Hash ch; ch.str(p.cfg.str()); for (auto &o : p.ops) ch.str(o.gets("kind") + o.gets("content"));
     r.case_hash = ch.get(); r.nontrivial = true; r.steps = objs.size();
     r.sample = fmt("%zu objects [%s...] writer{%s} reader{%s} bytes=%zu", objs.size(), p.ops.empty() ? "" : p.ops[0].gets("kind").c_str(), wc.str().c_str(), rc.str().c_str(), A.bytes.size());
